@@ -180,7 +180,9 @@ DecArrLen(flex, bs, pos) ==          \* val is a native int: -1 null, -2 huge, -
     ELSE LET l == LenOfBits(h.val) IN Ok(IntV(IF l >= 0 THEN l - 1 ELSE l), h.pos)
   ELSE
     LET h == DecFixed(bs, pos, 4, TRUE) IN
-    IF ~h.ok THEN h ELSE Ok(IntV(IF h.val.int < -1 THEN -3 ELSE h.val.int), h.pos)
+    IF ~h.ok THEN h
+    ELSE LET l == LenOfBits(ValBits(h.val)) IN
+         Ok(IntV(IF l = -2 THEN -2 ELSE IF l < -1 THEN -3 ELSE l), h.pos)
 
 RECURSIVE DecStruct(_, _, _), DecField(_, _, _, _, _)
 
